@@ -141,6 +141,14 @@ func genC14(r *rand.Rand, t *Trace, thorough bool) {
 				p.dim, p.m, p.nbits, p.nlist = 2, 1, 1+r.Intn(2), 2
 				o.ntrain, o.trainFirst, o.allowDup = 8+2*r.Intn(4), true, false
 			}
+			if kind == 2 && it%5 == 3 {
+				// flat PQ over mirror-image codewords, queries a few ulps off the mirror plane: two codes whose
+				// scores differ in the last bits, ranked by score and by nothing else
+				o.mirror, o.nearMirror, o.forceStyle = true, true, -1
+				// (trained on the minimum set, so the codewords are the mirror pairs themselves)
+				p.dim, p.m, p.nbits, p.metric = 2, 1, 1+r.Intn(2), r.Intn(2)
+				o.ntrain, o.trainFirst, o.allowDup = 1<<p.nbits, true, false
+			}
 			c := runVecHistory(r, p, o, t)
 			t.Emit(c, []string{"", "", "pq", "ivfpq"}[kind]+".metric."+string(metrics[p.metric]))
 		}
